@@ -227,7 +227,9 @@ class SwitchCodeGenerator:
                         f'{field_type.name} value {case_value} '
                         + f'must be referred to by name ({enum_value.name})'
                     )
-                return case_value
+                # Emit the parsed ordinal: the text itself ("007", other digit scripts) is not
+                # necessarily a valid Python literal.
+                return str(ordinal_value)
 
             enum_value = field_type.get_enum_value_by_name(case_value)
             if enum_value is None:
